@@ -41,7 +41,9 @@ class AlignmentType(Enum):
 
 
 def make_alignment_tuple(bam_index, alignment):
-    return alignment.reference_start, alignment.reference_end, bam_index, alignment
+    # an unmapped record placed at the position of its mate has no reference_end
+    reference_end = alignment.reference_end if alignment.reference_end is not None else alignment.reference_start
+    return alignment.reference_start, reference_end, bam_index, alignment
 
 
 class BAMOnlineMerger:
